@@ -396,6 +396,31 @@ func buildSweeps(thorough bool, r *report.R) []sweep {
 		}
 		return withAO(Case{Payload: "sequence", Media: runtime.MultipartFormMime, Seq: &sp}, authsE[i[5]], obs[i[6]]), true
 	}})
+	// ---- F: the whole call. Runtime.Submit with a capturing transport, Debug off and on ----
+	formsF := []Case{
+		{Payload: "form", Media: runtime.URLencodedFormMime, Form: []FormField{{"a", s("v")}}},
+		{Payload: "form", Media: runtime.URLencodedFormMime, Form: []FormField{{"a", s("v", "w&=")}, {"b c", s("")}}},
+		{Payload: "form", Media: runtime.MultipartFormMime, Form: []FormField{{"a", s("v", "")}}},
+	}
+	for _, f1 := range fileSet {
+		formsF = append(formsF, Case{Payload: "form", Media: runtime.MultipartFormMime, Files: []FileField{{"f", []FileSpec{f1}}}})
+		for _, f2 := range fileSet {
+			formsF = append(formsF, Case{Payload: "form", Media: runtime.JSONMime, Form: []FormField{{"a", s("v")}}, Files: []FileField{{"f", []FileSpec{f1}}, {"g", []FileSpec{f2}}}})
+		}
+	}
+	for _, n := range []int{0, 600, 70000} {
+		formsF = append(formsF, Case{Payload: "form", Media: runtime.MultipartFormMime, Files: []FileField{{"f", []FileSpec{{Base: "pipe.bin", Kind: "png", Len: n, Src: "fifo"}}}}},
+			Case{Payload: "form", Media: runtime.MultipartFormMime, Files: []FileField{{"f", []FileSpec{{Base: "disk.bin", Kind: "png", Len: n, Src: "osfile"}}}}})
+	}
+	payloadsF := append(append([]Case{}, payloads...), formsF...)
+	authsF := []authMode{{"none", 0}, {"op", 0}, {"default", 0}, {"op", 1}, {"op", 2}, {"default", 1}}
+	r.Set("sweepF_submit", map[string]any{"payloads": len(payloadsF), "of_which_forms": len(formsF), "auth": authsF, "debug": []bool{false, true},
+		"observation": "Runtime.Submit; the RoundTripper serialises the request with Request.Write and reads it back with http.ReadRequest"})
+	sweeps = append(sweeps, sweep{"F:submit-debug", []int{len(payloadsF), len(authsF), 2}, func(i []int) (Case, bool) {
+		c := withAO(payloadsF[i[0]], authsF[i[1]], obsMode{"POST", "submit"})
+		c.Debug = i[2] == 1
+		return c, true
+	}})
 	return sweeps
 }
 
@@ -515,5 +540,5 @@ func main() {
 		pprof.StopCPUProfile()
 	}
 	exhaustive := !hung.Load()
-	r.Finish("nine full products (A nil/value/reader payloads; B URL-encoded forms; C1 one-file contents; C2 form structures; C3 names; D1 upload sources and D2 reader payloads with Seek/ReadAt/WriteTo capabilities x honest/failing/lying x Close errors x a read fault at the k-th Read x chunking; D3 real FIFOs; E adaptive sequences of 2-3 multipart requests on one Runtime or fresh ones, each later request embedding the boundaries read from the earlier requests' Content-Type headers in file content / field value / file name), each tuple executed once on Runtime.CreateHttpRequest and the sent body read to EOF; in D a delivered fault permits a failed build or send, every success is held to the exact-bytes oracle; non-trivial = a non-nil payload produced a request whose sent bytes were parsed/compared with the reference (distinct by construction: the enumerators never repeat a tuple, sweeps differ in payload kind, shape or source)", exhaustive)
+	r.Finish("ten full products plus the size ladder (A nil/value/reader payloads; B URL-encoded forms; C1 one-file contents; C2 form structures; C3 names; D1 upload sources and D2 reader payloads with Seek/ReadAt/WriteTo capabilities x honest/failing/lying x Close errors x a read fault at the k-th Read x chunking; D3 real FIFOs; E adaptive sequences of 2-3 multipart requests on one Runtime or fresh ones, each later request embedding the boundaries read from the earlier requests' Content-Type headers in file content / field value / file name; F every payload of A plus forms through Runtime.Submit with a capturing transport x non-reading / reading auth x Debug off/on; G size ladder, see size_ladder), each tuple executed once on Runtime.CreateHttpRequest and the sent body read to EOF; in D a delivered fault permits a failed build or send, every success is held to the exact-bytes oracle; non-trivial = a non-nil payload produced a request whose sent bytes were parsed/compared with the reference (distinct by construction: the enumerators never repeat a tuple, sweeps differ in payload kind, shape or source)", exhaustive)
 }
